@@ -143,12 +143,29 @@ func putUvarint(x uint64) []byte {
 type XZOptions struct {
 	SingleStream bool
 	Record       bool
+	// LenientVarint accepts multibyte integers that are not minimally encoded (a trailing 0x00
+	// continuation byte). The format text rejects them; a decoder that accepts them still sees
+	// the same values, so such a file is unusual but its metadata is not inconsistent.
+	LenientVarint bool
 }
 
 // DecodeXZ parses and decodes a complete .xz file (possibly several streams
 // with stream padding).
 func DecodeXZ(in []byte, opt XZOptions) XZResult {
 	var res XZResult
+	uvarint := uvarint
+	if opt.LenientVarint {
+		uvarint = func(b []byte) (uint64, int) {
+			var x uint64
+			for i := 0; i < len(b) && i < 9; i++ {
+				x |= uint64(b[i]&0x7F) << (7 * uint(i))
+				if b[i]&0x80 == 0 {
+					return x, i + 1
+				}
+			}
+			return 0, -1
+		}
+	}
 	pos := 0
 	nStreams := 0
 	fail := func(e error) XZResult {
